@@ -1,13 +1,17 @@
 import CoapVerif.Spec.Oscore
 import CoapVerif.Spec.OscoreSeq
+import CoapVerif.Spec.OscoreCtx
 import CoapVerif.Model.Oscore
 import CoapVerif.Model.OscoreAssoc
+import CoapVerif.Model.OscoreCtx
 import CoapVerif.Driver.Codec
 /- Line-protocol driver for the OSCORE property C14: S's protected bytes / verdicts for the same
    inputs the C harness gets (harness/oscore.c), and M's helper outputs. -/
 -- DRIVER-OPS: osc => Coap.Driver.Oscore.oscStep
 -- DRIVER-OPS: tamper => Coap.Driver.Oscore.tamperStep
 -- DRIVER-OPS: oseq => Coap.Driver.Oscore.oseqStep
+-- DRIVER-OPS: oscm => Coap.Driver.Oscore.oscmStep
+-- DRIVER-OPS: findctx => Coap.Driver.Oscore.findctxStep
 -- DRIVER-OPS: optenc => Coap.Driver.Oscore.optencStep
 -- DRIVER-OPS: optdec => Coap.Driver.Oscore.optdecStep
 -- DRIVER-OPS: aad => Coap.Driver.Oscore.aadStep
@@ -226,6 +230,135 @@ def oseqStep (w : List String) : String :=
       "M" ++ st.tr ++ " | S seq" ++ st.out
     | _, _ => "bad-input"
   | _, _, _ => "bad-op"
+
+/-! ### several security contexts at the server: `oscm` (one exchange, S: Spec/OscoreCtx.lean) and `findctx`
+(store operations and lookups, M: Model/OscoreCtx.lean) -/
+
+/-- `-,01,0203`: a list of ids -/
+def idsOf (s : String) : Option (List Bytes) := (s.splitOn ",").mapM bytesOfHex
+
+def showPos (o : Option (Nat × Nat)) : String :=
+  match o with
+  | some (i, j) => toString i ++ "." ++ toString j
+  | none => "none"
+
+/-- one server context of an `oscm` line: `<secret> <salt> <idctx> <sid> <rid[,rid]*>` -/
+def serverEntryOf (w : List String) : Option (Params × List Bytes) :=
+  match w with
+  | [secret, salt, idctx, sid, rids] => do
+    let p ← paramsOf [secret, salt, idctx, sid, "-"]
+    let rs ← idsOf rids
+    pure (p, rs)
+  | _ => none
+
+def serverEntries : Nat → List String → Option (List (Params × List Bytes) × List String)
+  | 0, w => some ([], w)
+  | n + 1, w => do
+    let e ← serverEntryOf (w.take 5)
+    if w.length < 5 then none else
+    let (es, rest) ← serverEntries n (w.drop 5)
+    pure (e :: es, rest)
+
+/-- `oscm <C: 5> <cseq> <sseq> <newmid|-1> <nS> {<secret> <salt> <idctx> <sid> <rid[,rid]*>}*nS <req> [<resp> <piv 0|1>]*`:
+one exchange with a server that holds nS security contexts (each with one or more Recipient IDs).
+S: the server's contexts are the derived (context, Recipient ID) pairs; the request is handled by the one it names
+(D14.18) and the responses are protected with that context.  M: the position `oscore_find_context` returns in the
+store libcoap builds (`deriveCtx` per context). -/
+def oscmStep (w : List String) : String :=
+  match paramsOf (w.take 5), w.drop 5 with
+  | some pc, cseq :: sseq :: newmid :: ns :: rest0 =>
+    match cseq.toNat?, sseq.toNat?, ns.toNat?.bind (fun n => serverEntries n rest0) with
+    | some cseq, some sseq, some (es, req :: rest) =>
+      match (bytesOfHex req).bind (Spec.decode .udp) with
+      | none => "bad-input"
+      | some rm =>
+        let cl := derive pc
+        let svs : List Ctx := es.flatMap fun e => e.2.map fun rid => derive { e.1 with rid := rid }
+        let store : Option M.Oscore.CtxStore :=
+          es.foldl (fun st e => st.bind fun cs => M.Oscore.deriveCtx cs e.1.idctx e.2) (some [])
+        match protectRequest aes128 cl rm cseq with
+        | none => "M sel=none | S req=fail"
+        | some (pm, cb) =>
+          let dg := encodeUdp pm
+          let parsed := Spec.decode .udp dg
+          let v : Option Verdict := parsed.map (unprotectRequestAny aes128 svs)
+          let sv : Option Ctx := parsed.bind (selectFor svs)
+          let msel : String :=
+            match store, parsed.bind (fun m => oscoreValue m.opts) with
+            | some cs, some ov =>
+              (match M.Oscore.decodeOptionValue ov with
+               | .ok cose =>
+                 (match cose.kid with
+                  | some kid => showPos (M.Oscore.findContext cs kid (some (cose.kidctx.getD [])) none)
+                  | none => "none")
+               | _ => "none")
+            | none, _ => "bad-store"
+            | _, none => "none"
+          let sb := match v with
+            | some (.ok _ b) => some b
+            | _ => none
+          "M sel=" ++ msel ++ " | S req=" ++ hexOrDash dg ++ " ureq=" ++ showDelivery v ++
+            (match sb, sv with
+             | some _, some svc => responses cl svc (hasObserve rm.opts) (sepMidOf newmid) sb (some (rm.token, cb)) sseq rest
+             | _, _ => "")
+    | _, _, _ => "bad-input"
+  | _, _ => "bad-op"
+
+def showStore (cs : M.Oscore.CtxStore) : String :=
+  if cs.isEmpty then "-" else
+  ";".intercalate (cs.map fun c =>
+    (match c.idctx with | some x => hexOrDash x | none => "none") ++ ":" ++
+      (if c.rcps.isEmpty then "" else ",".intercalate (c.rcps.map hexOrDash)))
+
+def unambiguousB (ps : List Pos) : Bool :=
+  match ps with
+  | [] => true
+  | p :: rest => rest.all (fun q => !(decide (p.rid = q.rid) && decide (p.idctx.getD [] = q.idctx.getD []))) && unambiguousB rest
+
+/-- the steps of a `findctx` line; `m` = M's outputs, `s` = S's answers to the lookups of `coap_oscore_decrypt_pdu`'s
+kind (kid context given, no `oscore_r2`): the first pair the request names (D14.18), `-` for everything else -/
+def findctxSteps : (fuel : Nat) → M.Oscore.CtxStore → String → String → List String → String × String × M.Oscore.CtxStore
+  | 0, cs, m, s, _ => (m, s, cs)
+  | _, cs, m, s, [] => (m, s, cs)
+  | fuel + 1, cs, m, s, "c" :: idctx :: rids :: rest =>
+    match optBytes idctx, idsOf rids with
+    | some ic, some rs =>
+      (match M.Oscore.deriveCtx cs ic rs with
+       | some cs' => findctxSteps fuel cs' (m ++ " c:1") (s ++ " -") rest
+       | none => findctxSteps fuel cs (m ++ " c:0") (s ++ " -") rest)
+    | _, _ => (m ++ " bad-step", s, cs)
+  | fuel + 1, cs, m, s, "a" :: rid :: rest =>
+    match bytesOfHex rid with
+    | some r =>
+      (match M.Oscore.newRecipient cs r with
+       | some cs' => findctxSteps fuel cs' (m ++ " a:1") (s ++ " -") rest
+       | none => findctxSteps fuel cs (m ++ " a:0") (s ++ " -") rest)
+    | none => (m ++ " bad-step", s, cs)
+  | fuel + 1, cs, m, s, "d" :: rid :: rest =>
+    match bytesOfHex rid with
+    | some r =>
+      (match M.Oscore.deleteRecipient cs r with
+       | some cs' => findctxSteps fuel cs' (m ++ " d:1") (s ++ " -") rest
+       | none => findctxSteps fuel cs (m ++ " d:0") (s ++ " -") rest)
+    | none => (m ++ " bad-step", s, cs)
+  | fuel + 1, cs, m, s, "f" :: kid :: kc :: r2 :: rest =>
+    match bytesOfHex kid, (if kc = "null" then some none else (bytesOfHex kc).map some), optBytes r2 with
+    | some kid, some kc, some r2 =>
+      let sAns := match kc, r2 with
+        | some k, none =>
+          "f:" ++ showPos (((positions cs).find? fun p => namesId ⟨[], some k, some kid⟩ p.rid p.idctx).map fun p => (p.i, p.j)) ++
+            (if unambiguousB (positions cs) then "" else "~")
+        | _, _ => "-"
+      findctxSteps fuel cs (m ++ " f:" ++ showPos (M.Oscore.findContext cs kid kc r2)) (s ++ " " ++ sAns) rest
+    | _, _, _ => (m ++ " bad-step", s, cs)
+  | _, cs, m, s, _ => (m ++ " bad-step", s, cs)
+
+/-- `findctx { c <idctx|none> <rid[,rid]*> | a <rid> | d <rid> | f <kid> <kidctx|null> <r2|none> }*`: a context store built
+through libcoap's API (`c` = coap_context_oscore_server, `a` / `d` = coap_new / coap_delete_oscore_recipient) and lookups
+with `oscore_find_context` -/
+def findctxStep (w : List String) : String :=
+  let (m, s, cs) := findctxSteps (w.length + 1) [] "" "" w
+  "M fc" ++ m ++ " store=" ++ showStore cs ++ " | S fc" ++ s
 
 def fnv (s : String) : UInt32 :=
   s.toUTF8.toList.foldl (fun h b => (h ^^^ b.toUInt32) * 16777619) 2166136261
